@@ -3,6 +3,7 @@ package sqlite
 import (
 	"context"
 	"database/sql"
+	"encoding/hex"
 	"encoding/json"
 	"fmt"
 	"math/rand/v2"
@@ -94,7 +95,7 @@ func TestVerif_C14(t *testing.T) {
 		return
 	}
 	rep := vk.NewReport(t, "C14", "fault_enumeration")
-	rep.Rule = "file-backed databases opened through a fault-injecting database/sql driver; for a generated batch history and a chosen batch, every driver call index k (begin, each of the 5 prepares, every statement exec, commit) is failed in turn with {error returned by the driver, context cancelled at the call}, and sampled k (all k in the thorough tier) with {process killed at the call (child process, no rollback, parent reopens)}; after every faulted attempt, every retry, the final success and one more repetition a query panel must equal the model (failed => no-op, succeeded => applied once); close/reopen at seeded points between batches, followed by newer versions / deletion requests aimed at pre-restart rows; a few cases run through NewSQLiteHandler's retry loop; handler-level restarts (history through one handler, stop, close, reopen, new handler: a REQ panel is answered as before and as the model says; deletion requests by address only / by id only / mixed); non-trivial = a fault that fired inside a batch that would have changed the database; distinct = distinct (fault kind, driver call kind, batch shape)"
+	rep.Rule = "file-backed databases opened through a fault-injecting database/sql driver; for a generated batch history and a chosen batch, every driver call index k (begin, each of the 5 prepares, every statement exec, commit) is failed in turn with {error returned by the driver, context cancelled at the call}, and sampled k (all k in the thorough tier) with {process killed at the call (child process, no rollback, parent reopens)}; after every faulted attempt, every retry, the final success and one more repetition a query panel must equal the model (failed => no-op, succeeded => applied once); close/reopen at seeded points between batches, followed by newer versions / deletion requests aimed at pre-restart rows; a few cases run through NewSQLiteHandler's retry loop; handler-level restarts (history through one handler, stop, close, reopen, new handler: a REQ panel is answered as before and as the model says, also after further events through the new handler; deletion requests by address only / by id only / mixed); shutdown flushes with one buffered event that can never be written (all-or-nothing); non-trivial = a fault that fired inside a batch that would have changed the database; distinct = distinct (fault kind, driver call kind, batch shape)"
 	rep.Assume("a batch is 'failed' iff insertEvents returned an error (or its process died before the commit call was made)")
 	defer rep.Finish()
 	ctx := context.Background()
@@ -485,12 +486,18 @@ func TestVerif_C14(t *testing.T) {
 				}
 			}
 		}
-		// quiescence: all rows present
+		// quiescence: a marker event sent last is stored (the inserter works in order)
+		mk := vk.Seal(&mocrelay.Event{Kind: 1, Pubkey: vk.FakePub(78000 + i), CreatedAt: 997, Tags: []mocrelay.Tag{}, Content: fmt.Sprintf("marker of handler case %d", i)})
+		s.Put(&mocrelay.ClientEventMsg{Event: mk})
+		s.Get()
+		model.Insert(mk)
+		evs = append(evs, mk)
+		mkid, _ := hex.DecodeString(mk.ID)
 		deadline := time.Now().Add(vk.WaitBound)
 		for {
 			var cnt int
-			db.QueryRowContext(ctx, "select count(*) from events").Scan(&cnt)
-			if cnt >= len(model.Stored()) {
+			db.QueryRowContext(ctx, "select count(*) from events where id = ?", mkid).Scan(&cnt)
+			if cnt >= 1 {
 				break
 			}
 			if time.Now().After(deadline) {
@@ -541,6 +548,26 @@ func TestVerif_C14(t *testing.T) {
 				}
 			}
 			evs = append(evs, e)
+		}
+		// crafted on top (every second case): the stored version of an address is deleted by id
+		// before the restart and an older version of the same address arrives after it - the
+		// deleted version is still the newest one, the address must stay empty
+		var lateOld *mocrelay.Event
+		if i%2 == 0 {
+			a := vk.Pick(r, g.Authors)
+			kind := vk.Pick(r, []int64{0, 10002, 30023})
+			tags := []mocrelay.Tag{}
+			if kind == 30023 {
+				tags = append(tags, mocrelay.Tag{"d", "crafted"})
+			}
+			x := vk.Seal(&mocrelay.Event{Kind: kind, Pubkey: a, CreatedAt: g.TimeBase + 20, Tags: tags, Content: "newest version, deleted by id"})
+			k := vk.Seal(&mocrelay.Event{Kind: 5, Pubkey: a, CreatedAt: g.TimeBase + 30, Tags: []mocrelay.Tag{{"e", x.ID}}, Content: ""})
+			lateOld = vk.Seal(&mocrelay.Event{Kind: kind, Pubkey: a, CreatedAt: g.TimeBase + 10, Tags: tags, Content: "older version, arrives after the restart"})
+			if keep != 1 {
+				evs = append(evs, x, k)
+			} else {
+				lateOld = nil
+			}
 		}
 		model := vk.NewSQLModel()
 		open := func() (*sql.DB, mocrelay.Handler, context.CancelFunc, bool) {
@@ -595,13 +622,20 @@ func TestVerif_C14(t *testing.T) {
 			}
 			model.Insert(e)
 		}
+		// quiescence of the background inserter: a marker event sent last is stored (the inserter
+		// takes the events in order, one batch per event here)
+		mk1 := vk.Seal(&mocrelay.Event{Kind: 1, Pubkey: vk.FakePub(77000 + i), CreatedAt: 999, Tags: []mocrelay.Tag{}, Content: fmt.Sprintf("marker before the restart %d", i)})
+		s.Put(&mocrelay.ClientEventMsg{Event: mk1})
+		s.Get()
+		model.Insert(mk1)
+		evs = append(evs, mk1)
 		s.Stop()
-		// quiescence of the background inserter: every stored row of the model is there
+		mk1id, _ := hex.DecodeString(mk1.ID)
 		deadline := time.Now().Add(vk.WaitBound)
 		for {
 			var cnt int
-			db.QueryRowContext(ctx, "select count(*) from events").Scan(&cnt)
-			if cnt >= len(model.Stored()) {
+			db.QueryRowContext(ctx, "select count(*) from events where id = ?", mk1id).Scan(&cnt)
+			if cnt >= 1 {
 				break
 			}
 			if time.Now().After(deadline) {
@@ -655,9 +689,139 @@ func TestVerif_C14(t *testing.T) {
 		if !judge("after-restart", after) {
 			return
 		}
+		// the history goes on through the new handler: older and newer versions of pre-restart
+		// addresses, deletion requests aimed at pre-restart rows, events deleted before the restart
+		s2 := vk.StartSession(ctx, h2, 256)
+		var more []*mocrelay.Event
+		for k, n := 0, 6+r.IntN(14); k < n; k++ {
+			e := g.Next()
+			if r.IntN(4) == 0 && len(evs) > 0 {
+				e = vk.Pick(r, evs) // something that was offered before the restart, once more
+			}
+			if k == 0 && lateOld != nil {
+				e = lateOld
+				rep.Count("handler_restarts_with_older_version_after_id_deletion", 1)
+			}
+			if vk.ClassOf(e.Kind) == vk.Ephemeral {
+				continue
+			}
+			more = append(more, e)
+			s2.Put(&mocrelay.ClientEventMsg{Event: e})
+			if _, ok := s2.Get(); !ok {
+				rep.Inconclusive("C14: post-restart history was not acknowledged")
+				s2.Stop()
+				return
+			}
+			model.Insert(e)
+		}
+		mk2 := vk.Seal(&mocrelay.Event{Kind: 1, Pubkey: vk.FakePub(77000 + i), CreatedAt: 998, Tags: []mocrelay.Tag{}, Content: fmt.Sprintf("marker after the restart %d", i)})
+		s2.Put(&mocrelay.ClientEventMsg{Event: mk2})
+		s2.Get()
+		model.Insert(mk2)
+		more = append(more, mk2)
+		s2.Stop()
+		all := append(append([]*mocrelay.Event{}, evs...), more...)
+		if keyCollision(seed, all) {
+			return
+		}
+		mk2id, _ := hex.DecodeString(mk2.ID)
+		deadline = time.Now().Add(vk.WaitBound)
+		for {
+			var cnt int
+			db2.QueryRowContext(ctx, "select count(*) from events where id = ?", mk2id).Scan(&cnt)
+			if cnt >= 1 {
+				break
+			}
+			if time.Now().After(deadline) {
+				rep.Inconclusive("C14: handler did not reach quiescence after the restart")
+				return
+			}
+			time.Sleep(2 * time.Millisecond)
+		}
+		evs = all
+		later, ok := ask(h2, panel)
+		if !ok {
+			rep.Violation("handler-after-restart/no-answer", "the handler over the reopened database did not answer the panel after further events", map[string]any{"events": shortEvs(evs)})
+			return
+		}
+		if !judge("after-restart-and-further-events", later) {
+			return
+		}
 		rep.Count("handler_restarts", 1)
 		rep.Count(fmt.Sprintf("handler_restarts_deletions_%s", []string{"all", "by_address_only", "by_id_only"}[keep]), 1)
 		rep.Nontrivial(fmt.Sprintf("handler-restart/%d/%d/%d", keep, len(evs), len(model.Live())))
+	})
+
+	// the flush at shutdown: events are still buffered when the handler's context ends, and one
+	// of them cannot be written however often it is tried (every statement carrying its id
+	// fails). The batch fails as a whole: afterwards the database answers as before the batch
+	// (or, had a retry succeeded, as after the whole batch) - never something in between.
+	nFlush := vk.N(3, 12)
+	vk.ParallelW(12, nFlush, func(i int) {
+		r := vk.RNG("C14/shutdown-flush", i)
+		path := filepath.Join(dir, fmt.Sprintf("hf%d.db", i))
+		db, plan := faultsql.Open("file:" + path)
+		db.SetMaxOpenConns(1)
+		defer db.Close()
+		hctx, hcancel := context.WithCancel(ctx)
+		defer hcancel()
+		h, err := NewSQLiteHandler(hctx, db, &SQLiteHandlerOption{EventBulkInsertNum: 1000, EventBulkInsertDur: time.Hour, MaxLimit: NoLimit})
+		if err != nil {
+			rep.Violation("sqlite/new-handler", err.Error(), nil)
+			return
+		}
+		var seed uint32
+		db.QueryRowContext(ctx, "select seed from xxhash_seed").Scan(&seed)
+		g := sqlHistoryGen(r)
+		g.BigEvery, g.NoDeletion, g.NoEphemeral = 0, true, true
+		before := vk.NewSQLModel()
+		var pre, batch []*mocrelay.Event
+		for k := 0; k < 3; k++ {
+			pre = append(pre, g.Next())
+		}
+		if err := insertEvents(ctx, db, seed, pre); err != nil {
+			rep.Inconclusive("C14: could not prepare the shutdown-flush case: " + err.Error())
+			return
+		}
+		before.InsertBatch(pre)
+		s := vk.StartSession(ctx, h, 64)
+		n := 3 + r.IntN(5)
+		for k := 0; k < n; k++ {
+			e := g.Next()
+			batch = append(batch, e)
+			s.Put(&mocrelay.ClientEventMsg{Event: e})
+			s.Get()
+		}
+		s.Stop()
+		if keyCollision(seed, append(append([]*mocrelay.Event{}, pre...), batch...)) {
+			return
+		}
+		victim := batch[r.IntN(len(batch))]
+		idb, _ := hex.DecodeString(victim.ID)
+		plan.Poison(idb)
+		hcancel()
+		// the handler gives its last flush three seconds; nothing is attempted after that
+		time.Sleep(4500 * time.Millisecond)
+		bitten := plan.Unpoison()
+		after := before.Clone()
+		after.InsertBatch(batch)
+		rep.Eval(1)
+		for _, fs := range [][]*mocrelay.ReqFilter{{{}}, {{Authors: g.Authors}}} {
+			ans, err := queryEvent(ctx, db, seed, fs, NoLimit)
+			if err != nil {
+				rep.Violation("query/error-after-shutdown-flush", oneline(err.Error()), nil)
+				return
+			}
+			if vb, va := vk.CheckQuery(before.Live(), fs, ans), vk.CheckQuery(after.Live(), fs, ans); !vb.OK && !va.OK {
+				rep.Violation("shutdown-flush/partial-batch", fmt.Sprintf("%d events were buffered when the handler stopped and one of them could not be written (%d statement executions failed): afterwards the database answers neither as before the batch (%s) nor as after the whole batch (%s)", len(batch), bitten, vb.Why, va.Why),
+					map[string]any{"stored_before": shortEvs(pre), "buffered_batch": shortEvs(batch), "unwritable": victim.ID, "answer": shortEvs(ans)})
+				return
+			}
+		}
+		if bitten > 0 {
+			rep.Count("shutdown_flushes_with_an_unwritable_event", 1)
+			rep.Nontrivial(fmt.Sprintf("shutdown-flush/%d/%d", len(batch), bitten))
+		}
 	})
 
 	// faults below the driver: the same kind of histories in a child process whose
@@ -708,6 +872,7 @@ func TestVerif_C14(t *testing.T) {
 	rep.Require(rep.Counter("large_batch_faults") >= int64(nHist/8*6), "large-batch faults")
 	rep.Require(rep.Counter("reopens") > 5, "reopens")
 	rep.Require(rep.Counter("handler_restarts") >= int64(nR*2/3), "handler restarts")
+	rep.Require(rep.Counter("shutdown_flushes_with_an_unwritable_event") >= int64(nFlush*2/3), "shutdown flushes")
 	rep.Require(rep.SetSize("fault_points") >= 20, "fault point kinds (mode x call kind)")
 	rep.Require(rep.Counter("handler_retries_after_fault") >= 1, "handler retry cases")
 }
